@@ -100,7 +100,10 @@ def handle (op : String) (j : Json) : Option Json :=
           (dbOfJson (getObj j "final"))
         some (obj [("holds", Json.bool v.holds), ("boundary", Json.bool v.boundary),
                    ("failedOk", Json.bool v.failedOk), ("singleOk", Json.bool v.singleOk),
-                   ("perMigOk", Json.bool v.perMigOk), ("nonTxnOk", Json.bool v.nonTxnOk)])
+                   ("perMigOk", Json.bool v.perMigOk), ("nonTxnOk", Json.bool v.nonTxnOk),
+                   ("hyp", Json.bool (Spec.Online.wfPlan cs.pre cs.plan &&
+                      Spec.Online.namesHyp (parentsOfJson j) cs.pre cs.plan cs.db
+                        (match cs.plan[k]? with | some m => m.rev | none => 0) (getBoolD j "upgrade") k))])
       | none =>
         -- no failure: everything applied and recorded
         let fin := dbOfJson (getObj j "final")
